@@ -578,4 +578,35 @@ example :
       R.1.trackers.map (fun tr => tr.times) = [[0, 97 / 100, 2, 3], [0, 97 / 100, 97 / 50, 291 / 100]] := by
   decide +kernel
 
+/-- the hypotheses of `scheduled_times_up_to_t_end_served_whole_range` / `scheduled_time_at_t_end_served_iff` /
+`frame_count_floor_iff` are satisfiable: dt = 1/2, range [0, 2] (4 whole steps), D = 1 - the scheduled time 2 = t_end
+is served (the tracker is called more than twice), and the run records 0, 1, 2 -/
+example : 2 < (callsOf 0 (runFuel (K := Rat) (S := Rat) (σ := Sched Rat)
+    { dt := 1 / 2, tStart := 0, tEnd := 2, eps := 1 / 1000000, step := fun u _ => u + 1 / 2, nxt := Sched.next } 0
+    [ { kind := .storage, sched := .const 1 0, due := some 0, stopAt := fun _ _ _ => none, calls := 0, times := [],
+        frames := [], finalized := 0 } ] 10).trace).length := by
+  refine scheduled_times_up_to_t_end_served_whole_range _ (by norm_num) (by norm_num) (by norm_num) 4 (by norm_num) 1
+    (by norm_num) _ (sched_constLike 1) 0 _ 0 _ rfl rfl rfl 10 ?_ 2 (by norm_num)
+  apply reachedEnd_of_final
+  decide +kernel
+
+example :
+    let R := runSpec (1 / 2 : Rat) 0 2 (1 / 1000000) (fun u _ => u + 1 / 2) (0 : Rat)
+      [ { kind := .storage, sched := .const 1 none, stopAt := fun _ _ _ => none } ]
+    R.exit = .final ∧ R.tFinal = 2 ∧ R.trackers.map (fun tr => tr.times) = [[0, 1, 2]] := by decide +kernel
+
+/-- the hypotheses of `adaptive_served_exactly_run` and `adaptive_never_late_run` are satisfiable (oracle: every step
+accepted, `adjust_dt` answers 4) -/
+example : True := by
+  have h1 := adaptive_served_exactly_run (K := Rat) (S := Rat) (1 / 4) 0 5 (1 / 1000000) (1 / 10000000000)
+    (fun u t s => u + (s - t)) (List.replicate 20 ⟨true, 4⟩) 0 (by norm_num) (by norm_num) (by norm_num) (3 / 2)
+    (by norm_num) (by intro x hx; rw [List.eq_of_mem_replicate hx]; norm_num)
+    { kind := .storage, sched := .const (3 / 2) none, stopAt := fun _ _ _ => none } rfl 100
+  have h2 := adaptive_never_late_run (K := Rat) (S := Rat) (1 / 4) 0 5 (1 / 1000000) (1 / 10000000000) 4
+    (fun u t s => u + (s - t)) (List.replicate 20 ⟨true, 4⟩) 0 (by norm_num) (by norm_num) (by norm_num)
+    (by norm_num) (3 / 2) (by norm_num) (by intro x hx; rw [List.eq_of_mem_replicate hx]; norm_num)
+    [ { kind := .callback, sched := .const 1 none, stopAt := fun _ _ _ => none },
+      { kind := .storage, sched := .const (3 / 2) none, stopAt := fun _ _ _ => none } ] 1 _ rfl rfl 100
+  trivial
+
 end PdeVerif.Controller
